@@ -546,17 +546,18 @@ func (c *Client) doRountrip(ctx context.Context, msg *kmip.RequestMessage) (*kmi
 //   - *kmip.ResponseMessage - The KMIP response message received.
 //   - error - Any error encountered during processing or sending the request.
 func (c *Client) Roundtrip(ctx context.Context, msg *kmip.RequestMessage) (*kmip.ResponseMessage, error) {
-	i := 0
-	var next func(ctx context.Context, req *kmip.RequestMessage) (*kmip.ResponseMessage, error)
-	next = func(ctx context.Context, req *kmip.RequestMessage) (*kmip.ResponseMessage, error) {
+	return c.nextAt(0)(ctx, msg)
+}
+
+// nextAt returns the continuation running the middleware chain from stage i on, with the
+// transport innermost. It holds no mutable state, so a middleware may invoke it several times (retry).
+func (c *Client) nextAt(i int) Next {
+	return func(ctx context.Context, req *kmip.RequestMessage) (*kmip.ResponseMessage, error) {
 		if i < len(c.middlewares) {
-			mdl := c.middlewares[i]
-			i++
-			return mdl(next, ctx, req)
+			return c.middlewares[i](c.nextAt(i+1), ctx, req)
 		}
 		return c.doRountrip(ctx, req)
 	}
-	return next(ctx, msg)
 }
 
 // negotiateVersion negotiates the KMIP protocol version to be used by the client.
